@@ -37,7 +37,7 @@ func checkC18(c *Ctx) {
 	c.Floor("MAPRANGE", 9)
 	c.Decides("LOCK-COVERS (go/cfg, must-analysis): in UpdateTaxaMoveArrays every write to an accumulator shared between the TBE workers (slice parameter not indexed by the call's own reference branch, pointer parameter) happens with the mutex parameter held on every path")
 	c.lockCovers("LOCK-COVERS", c.Func("support", "", "UpdateTaxaMoveArrays"), "the output does not depend on the thread schedule")
-	c.Floor("LOCK-COVERS", 3)
+	c.Floor("LOCK-COVERS", 2)
 	c.Extra["map_range_loops"] = len(loops)
 	var assumed []string
 	seenKey := map[string]int{}
